@@ -690,6 +690,10 @@ func GenValue(rt *rapid.T, typeName string, o GenOpts) (*Value, *Features) {
 
 // DefaultOpts: list-size policy per tier.
 func DefaultOpts(m Mode) GenOpts {
+	if FuzzMode() {
+		// coverage-guided campaign: many small cases; the engine aborts a worker that is silent for 10 s
+		return GenOpts{Mode: m, MaxList: 70000, BigProb: 60, HugeProb: 0}
+	}
 	if Thorough() {
 		return GenOpts{Mode: m, MaxList: 70000, BigProb: 20, HugeProb: 120, HugeObj: 4000}
 	}
